@@ -23,6 +23,8 @@ pub fn dom(thorough: bool) -> Dom {
         "é✓".into(),
         "x".repeat(64),
         "q\"\\\n\t\u{0}\u{7f}\u{2028}/".into(),
+        // token-spaced punctuation, as `stringify!` produces it in hand-written impls
+        "Vec < Option < u8 > > , ( a , b ) :: c & 'static [ T ; 2 ]".into(),
     ];
     if thorough {
         strings.push("y".repeat(16384));
